@@ -479,9 +479,9 @@ type c10SkelCase struct {
 
 func c10SkelAlphabet() (conds []c10Cond, acts [][]c10Act) {
 	conds = []c10Cond{
-		{Kind: "prefix", Opt: "any", Set: "ps-m", Pfx: []c10PfxEnt{{"10.1.0.0/16", 16, 32}}}, // matches both skeleton routes
+		{Kind: "prefix", Opt: "any", Set: "ps-m", Pfx: []c10PfxEnt{{"10.1.0.0/16", 16, 32}}},   // matches both skeleton routes
 		{Kind: "prefix", Opt: "any", Set: "ps-x", Pfx: []c10PfxEnt{{"172.16.0.0/12", 12, 32}}}, // matches neither
-		{Kind: "comm", Opt: "any", Set: "cs-f", Members: []string{"65000:1"}},                   // true only after the add below
+		{Kind: "comm", Opt: "any", Set: "cs-f", Members: []string{"65000:1"}},                  // true only after the add below
 	}
 	acts = [][]c10Act{
 		nil,
